@@ -89,7 +89,7 @@ def h15c(c, n=2):
         flt = c.choose("status_filter", ["none", "executable", "live", "complete"])
         sf = {"none": None, "executable": [S.EXECUTABLE], "live": [S.PENDING, S.EXECUTABLE, S.CANCELLING, S.UPDATING, S.REPLACING],
               "complete": [S.EXECUTION_COMPLETE, S.VIOLATION]}[flt]
-        mo = c.choose("matched_only", [None, True])
+        mo = c.choose("matched_only", [None, False, True])  # (False, like None, means no filter on the matched size)
         b = market.blotter
         views = [("strategy_orders", lambda w: w["st"] is strategies[0], lambda: b.strategy_orders(strategies[0], order_status=sf, matched_only=mo)),
                  ("strategy_selection_orders", lambda w: w["st"] is strategies[0] and w["sel"] == 1, lambda: b.strategy_selection_orders(strategies[0], 1, 0, order_status=sf, matched_only=mo)),
@@ -133,6 +133,6 @@ HARNESSES = [
     Harness("H15a", h15a, quick=dict(K=3), thorough=dict(K=4), pattern="P3 bounded history", requires=["history", "several-orders"], outside=OUT,
             max_paths=(300000, 3000000), wall_s=(300, 3000)),
     Harness("H15b", h15b, quick=dict(n=2), pattern="P3/P5", requires=["adopted", "adopted-into-closed-market", "bet-id-view"], outside=OUT, max_paths=(300000, 3000000)),
-    Harness("H15c", h15c, quick=dict(n=2), thorough=dict(n=3), pattern="P1 kernel-with-oracle", requires=["filters"], outside=OUT),
+    Harness("H15c", h15c, quick=dict(n=2), thorough=dict(n=3), pattern="P1 kernel-with-oracle", requires=["filters"], outside=OUT, max_paths=(80000, 2000000)),
 ]
 META = {"assumptions": ["structural property: little arithmetic; the schedule / statuses / fault outcomes are the symbolic part"]}
